@@ -373,6 +373,18 @@ fn gen_cps(rng: &mut Rng) -> Vec<PathControlPoint> {
             v[1].path_type = None;
             v[2].path_type = if n > 3 { Some(PathType::LINEAR) } else { None };
         }
+        // a three-point arc over a LONG chord with the middle point a hair off it: the circle exists (the collinearity
+        // test is passed, the centre is finite) but its radius is beyond single precision
+        5 if n >= 3 => {
+            let chord = *rng.pick(&[20000.0f32, 40000.0, 100000.0, 8000.0]);
+            let off = *rng.pick(&[1e-11f32, 1e-9, 1e-7, 1e-5, -1e-10]);
+            v[0].pos = Pos::new(0.0, 0.0);
+            v[1].pos = Pos::new(chord / 2.0, off);
+            v[2].pos = Pos::new(chord, 0.0);
+            v[0].path_type = Some(PathType::PERFECT_CURVE);
+            v[1].path_type = None;
+            v[2].path_type = if n > 3 { Some(PathType::LINEAR) } else { None };
+        }
         // a zig-zag Catmull
         2 => {
             for (i, p) in v.iter_mut().enumerate() {
